@@ -77,13 +77,15 @@ func VerifC06CacheProtocol() {
 			}
 		case op < 10: // Clear({d})
 			i := op - 8
+			before := time.Now() // the invalidation happens no earlier than this instant
 			c.Clear(sets.New(verifDeps[i]))
-			ev := verifClearEvent{at: verifCacheTokenTime(c)}
+			ev := verifClearEvent{at: before}
 			ev.deps[i] = true
 			events = append(events, ev)
 		case op == 10:
+			before := time.Now()
 			c.ClearAll()
-			events = append(events, verifClearEvent{at: verifCacheTokenTime(c), all: true})
+			events = append(events, verifClearEvent{at: before, all: true})
 		case op == 11:
 			c.Flush()
 		}
@@ -97,11 +99,6 @@ func VerifC06CacheProtocol() {
 			}
 		}
 	}
-}
-
-// the instant the cache recorded for its last invalidation (Clear/ClearAll set token = time.Now())
-func verifCacheTokenTime(c *lruCache[uint64]) time.Time {
-	return time.Unix(0, int64(c.token))
 }
 
 // Mutant twin: "a Get after a Clear of a dependency may still hit" must be refuted only if the cache is wrong;
